@@ -409,7 +409,7 @@ pub fn gen_range_text(rng: &mut Rng) -> String {
     };
     // now and then a very long range: printed forms of several KiB cross every fixed-size
     // buffer a serializer, formatter or reader adapter might use
-    if rng.below(300) == 0 {
+    if rng.below(1000) == 0 {
         let n = 20 + rng.usize_below(400);
         let mut s = String::new();
         for i in 0..n {
